@@ -1,0 +1,70 @@
+//go:build verif
+// +build verif
+
+// Machine-checked contracts for this package (checked by /verif/govc).
+// Comment-only: no executable code.
+
+package keeper
+
+//@ import types "github.com/ovrclk/akash/x/market/types"
+//@ import dtypes "github.com/ovrclk/akash/x/deployment/types"
+
+// ---- store layout (C06): byte-level definitions, key functions verified against them ----
+//@ spec abstract orderKeyOf(id: types.OrderID): str = "\x01\x00" + id.Owner + be64(id.DSeq) + be32(id.GSeq) + be32(id.OSeq)
+//@ spec abstract bidKeyOf(id: types.BidID): str = "\x02\x00" + id.Owner + be64(id.DSeq) + be32(id.GSeq) + be32(id.OSeq) + id.Provider
+//@ spec abstract leaseKeyOf(id: types.LeaseID): str = "\x03\x00" + id.Owner + be64(id.DSeq) + be32(id.GSeq) + be32(id.OSeq) + id.Provider
+//@ spec abstract ordersForGroupOf(id: dtypes.GroupID): str = "\x01\x00" + id.Owner + be64(id.DSeq) + be32(id.GSeq)
+//@ spec abstract bidsForOrderOf(id: types.OrderID): str = "\x02\x00" + id.Owner + be64(id.DSeq) + be32(id.GSeq) + be32(id.OSeq)
+
+//@ func orderKey
+//@   uses def:orderKeyOf
+//@   ensures result == orderKeyOf(id)
+//@ func bidKey
+//@   uses def:bidKeyOf
+//@   ensures result == bidKeyOf(id)
+//@ func leaseKey
+//@   uses def:leaseKeyOf
+//@   ensures result == leaseKeyOf(id)
+//@ func ordersForGroupPrefix
+//@   uses def:ordersForGroupOf
+//@   ensures result == ordersForGroupOf(id)
+//@ func bidsForOrderPrefix
+//@   uses def:bidsForOrderOf
+//@   ensures result == bidsForOrderOf(id)
+
+// owners are bech32 account addresses of this chain: one fixed length (A-LIB)
+//@ spec addrStrLen(): int
+//@ axiom addrStrLenPos: addrStrLen() > 0
+//@ spec okOrderID(id: types.OrderID): bool = len(id.Owner) == addrStrLen()
+//@ spec okBidID(id: types.BidID): bool = len(id.Owner) == addrStrLen() && len(id.Provider) == addrStrLen()
+//@ spec okGroupID(id: dtypes.GroupID): bool = len(id.Owner) == addrStrLen()
+
+//@ lemma orderKeyInj(a: types.OrderID, b: types.OrderID)
+//@   theory strings
+//@   requires okOrderID(a) && okOrderID(b) && orderKeyOf(a) == orderKeyOf(b)
+//@   ensures a == b
+//@ lemma bidKeyInj(a: types.BidID, b: types.BidID)
+//@   theory strings
+//@   requires okBidID(a) && okBidID(b) && bidKeyOf(a) == bidKeyOf(b)
+//@   ensures a == b
+//@ lemma leaseKeyInj(a: types.LeaseID, b: types.LeaseID)
+//@   theory strings
+//@   requires len(a.Owner) == addrStrLen() && len(b.Owner) == addrStrLen() && leaseKeyOf(a) == leaseKeyOf(b)
+//@   ensures a == b
+// an order key lies under a group's prefix exactly when the order belongs to that group
+//@ lemma ordersForGroupExact(o: types.OrderID, g: dtypes.GroupID)
+//@   theory strings
+//@   requires okOrderID(o) && okGroupID(g)
+//@   ensures hasPrefix(orderKeyOf(o), ordersForGroupOf(g)) <==> (o.Owner == g.Owner && o.DSeq == g.DSeq && o.GSeq == g.GSeq)
+// a bid key lies under an order's prefix exactly when the bid is for that order
+//@ lemma bidsForOrderExact(b: types.BidID, o: types.OrderID)
+//@   theory strings
+//@   requires okBidID(b) && okOrderID(o)
+//@   ensures hasPrefix(bidKeyOf(b), bidsForOrderOf(o)) <==> (b.Owner == o.Owner && b.DSeq == o.DSeq && b.GSeq == o.GSeq && b.OSeq == o.OSeq)
+// records of different kinds never share a key
+//@ lemma kindsDisjoint(o: types.OrderID, b: types.BidID, l: types.LeaseID)
+//@   theory strings
+//@   ensures orderKeyOf(o) != bidKeyOf(b) && orderKeyOf(o) != leaseKeyOf(l) && bidKeyOf(b) != leaseKeyOf(l)
+
+//@ property C06 := orderKey#*, bidKey#*, leaseKey#*, ordersForGroupPrefix#*, bidsForOrderPrefix#*,
+//@     lemma:orderKeyInj, lemma:bidKeyInj, lemma:leaseKeyInj, lemma:ordersForGroupExact, lemma:bidsForOrderExact, lemma:kindsDisjoint
